@@ -235,6 +235,15 @@ func genC09(p *Plan, r *RNG) {
 			p.Ops = append(p.Ops, Op{Actor: "p1", Kind: "peer_send", At: gap(int64(r.Range(1, 500)) * ms), A: OpArgs{Target: "c1", Len: r.PickInt([]int{0, 1, 20, 1600, 1601, 65507}), Content: r.Pick([]string{"stunlike", "chanlike", "stunvalid", "rand"})}})
 			continue
 		}
+		if p.Cfg.Listener == "tcp" && r.Chance(1, 6) {
+			// an oversize frame (more than any read buffer holds) with a well-formed request right
+			// behind it in the same write: the frame is skipped, the request is served
+			big, _ := stun.Build(stun.NewTransactionIDSetter([12]byte{9, 9, 9, byte(i)}), stun.BindingRequest, rawAttr{stun.AttrType(0x8055), r.Bytes(r.PickInt([]int{1700, 4000, 9000}))})
+			var tid [12]byte
+			copy(tid[:], r.Bytes(12))
+			req, _ := stun.Build(stun.NewTransactionIDSetter(tid), stun.BindingRequest, stun.Fingerprint)
+			raw = append(append([]byte(nil), big.Raw...), req.Raw...)
+		}
 		p.Ops = append(p.Ops, Op{Actor: who, Kind: "raw", At: gap(int64(r.Range(1, 500)) * ms), A: OpArgs{Raw: hex.EncodeToString(raw)}})
 	}
 	// liveness: the same and another party are still served
